@@ -34,7 +34,7 @@ PLAN = {
     "C20-m1": [("C20", None)], "C20-m2": [("C20", None)],
     # round 3 (m5): the parts added for the changes which the quick tier missed at first
     "C03-m5": [("C03", "obo")], "C08-m5": [("C08", "acl-fault")], "C09-m5": [("C09", "msg-after-reload")],
-    "C14-m5": [("C14", "queue-full")], "C16-m5": [("C16", "files")],
+    "C14-m5": [("C14", "queue-full")], "C16-m5": [("C16", "files")], "C17-m5": [("C17", "follower")],
 }
 def sh(*a, **k):
     return subprocess.run(list(a), capture_output=True, text=True, **k)
